@@ -2,34 +2,14 @@
   Translator phase 4h (app mode): `reverse_bits_u64` (src/util/basic.rs) and the `matrix_reps_index_map` loop of `BatchEncoder::new`
   (src/batch_encoder.rs, a fragment) regenerated into Gen/AppFns.lean = `brev` / `batchIndexMap` of the hand model.  Helper prefix `ga_`.
 -/
-import Heathcliff.Proofs.GenAppBase
+import Heathcliff.Proofs.GenAppBrev
 import Heathcliff.Gen.AppBatchFns
 import Heathcliff.Model.Galois
-import Mathlib.Tactic.Ring
 
 namespace HC
 open HC.GenApp
 
 /-! ### `reverse_bits_u64` -/
-
-theorem ga_revBitsK_eq_brev : ∀ k x, revBitsK k x = brev k x := by
-  intro k; induction k with
-  | zero => intro x; rfl
-  | succ k ih => intro x; rw [revBitsK, brev, ih]
-
-theorem ga_brev_zero : ∀ k, brev k 0 = 0 := by
-  intro k; induction k with
-  | zero => rfl
-  | succ k ih => rw [brev, ih]; simp
-
-theorem ga_brev_add : ∀ k j x, x < 2^k → brev (k + j) x = brev k x * 2^j := by
-  intro k; induction k with
-  | zero => intro j x hx; have : x = 0 := by simpa using hx
-            subst this; rw [ga_brev_zero, brev]; simp
-  | succ k ih =>
-    intro j x hx
-    have h2 : x / 2 < 2^k := by rw [Nat.pow_succ] at hx; omega
-    rw [show k + 1 + j = (k + j) + 1 by omega, brev, brev, ih j _ h2, Nat.pow_add]; ring
 
 /-- **`reverse_bits_u64`, generated = `brev`**: `bit_count ≤ 64` (`64 - bit_count` is a checked subtraction; `bit_count = 0` gives 0 in
     both) and an operand of at most `bit_count` bits -/
